@@ -1,6 +1,6 @@
 (* Properties/C16.v — the ontology is a function of the facts, not of their order (C16) *)
 From Coq Require Import Relations Permutation.
-From HpoV Require Import Gen.Consts Model.Base Model.Group Model.Onto Model.Dump Run.World Run.Ser Run.C16 Proofs.C15P Proofs.ClosureP Proofs.LinkP Proofs.RecordsP Proofs.C16M Model.Script.
+From HpoV Require Import Gen.Consts Model.Base Model.Group Model.Onto Model.Dump Run.World Run.Ser Run.C16 Proofs.C15P Proofs.ClosureP Proofs.LinkP Proofs.RecordsP Proofs.C16M Model.Script Proofs.AllPathsP.
 
 Theorem C16_all_orders_same_observation : forall i o, spec_C16 i o = true ->
   forall a b, In a o -> In b o -> ser_res a = ser_res b.
@@ -37,7 +37,19 @@ Theorem C16_builder_scripts_order_independent : forall icf s1 s2 c1 c2 o1 o2 t1 
   (forall k, t_annots k t2 = t_annots k t1) /\ t_ic t2 = t_ic t1.
 Proof. exact builder_scripts_order_independent. Qed.
 
+(* THE ONTOLOGY IS A FUNCTION OF THE FACTS, ACROSS CONSTRUCTION PATHS: two [constructed] ontologies
+   (Proofs/AllPathsP.v) — a Builder script and a JAX load, a binary file and a sub-ontology, any two
+   public constructors with any input order — that state the same direct facts agree, term by
+   term, on parents, children, ancestor caches, all three annotation sets and information content *)
+Theorem C16_constructed_ontologies_with_same_facts_agree : forall icf o1 o2 t1 t2, constructed icf o1 -> constructed icf o2 ->
+  same_facts o1 o2 ->
+  In t1 (ar_terms (o_arena o1)) -> In t2 (ar_terms (o_arena o2)) -> t_id t2 = t_id t1 ->
+  t_parents t2 = t_parents t1 /\ t_children t2 = t_children t1 /\ t_allp t2 = t_allp t1 /\
+  (forall k, t_annots k t2 = t_annots k t1) /\ t_ic t2 = t_ic t1.
+Proof. exact constructed_same_facts_agree. Qed.
+
 Print Assumptions C16_all_orders_same_observation.
 Print Assumptions C16_model_closure_order_independent.
 Print Assumptions C16_model_annotations_order_independent.
 Print Assumptions C16_builder_scripts_order_independent.
+Print Assumptions C16_constructed_ontologies_with_same_facts_agree.
